@@ -193,6 +193,9 @@ func effectiveEnv(env []string) map[string]string {
 	return m
 }
 
+// c17Neighbours are inherited variables named like the injected / configured ones plus or minus a few characters.
+var c17Neighbours = map[string]string{"PC_PROC_NAMESPACE": "blue", "PC_REPLICA_NUM_BASE": "8000", "PC_PROC": "pp", "PC_REPLICA": "rr", "VHX2": "x2", "VH": "vh", "VHGG": "gg", "VHPP": "ppp"}
+
 func c17Scenarios(tier string) []*Scenario {
 	var scs []*Scenario
 	// X is defined in every subset of {inherited, env_cmds, global, per-process}
@@ -239,6 +242,11 @@ func c17Scenarios(tier string) []*Scenario {
 					sc.Env["VHX"] = "inherited"
 				}
 				sc.Env["VHI"] = "i"
+				// inherited variables whose names merely extend (or are a prefix of) the names the code injects
+				// or the configuration defines are different variables
+				for k, v := range c17Neighbours {
+					sc.Env[k] = v
+				}
 				sc.Env["VHZ"] = "inherited-z" // an env_cmds command that prints nothing defines the variable as empty
 				if nested {
 					sc.Env["PC_PROC_NAME"] = "outer"
@@ -292,6 +300,11 @@ func c17Scenarios(tier string) []*Scenario {
 						}
 						if e["VHI"] != "i" {
 							vs = append(vs, viol("C17", "precedence:inherited-lost", "inherited variable VHI missing"))
+						}
+						for k, v := range c17Neighbours {
+							if got, ok := e[k]; !ok || got != v {
+								vs = append(vs, viol("C17", "precedence:inherited-lost:"+k, "inherited variable %s=%q reaches the command as %q (defined=%v); its name only resembles an injected or configured one", k, v, got, ok))
+							}
 						}
 						if glob && e["VHG"] != "g" {
 							vs = append(vs, viol("C17", "precedence:global-lost", "global variable VHG missing"))
